@@ -1,15 +1,138 @@
 /-
   Driver handlers for the KeyFile model. `handle op args` returns `none` when the
   operation is not one of this file's.
+
+  The single-line parsers are parameters of the model; the harness supplies
+  their verdicts per scanner line (as the real parsers gave them), the model
+  computes the file-level result with `maxTok = 65536`, `limit = 2^24`,
+  `lineLimit = 8192`.
+
+    kfids  <filehex> <mask>     age.ParseIdentities;  mask: one digit per line, 1 = ParseX25519Identity accepts
+    kfrcp  <filehex> <mask>     age.ParseRecipients;  1 = ParseX25519Recipient accepts
+        → ok <count> <sum of the key lines joined with \n> | err line <n> | err nokeys | err scan
+    kfcliids <filehex> <mask>   cmd/age parseIdentities; digit = pluginOk + 2·x25519Ok
+        → ok <count> | err line <n> | err nokeys | err scan
+    kfclircp <filehex> <mask>   cmd/age parseRecipientsFile; five digits per line:
+                                pluginOk x25519Ok sshOk sniff(0 none,1 ssh-rsa,2 ssh-ed25519,3 other) sshValid
+        → (ok <count> | err line <n> | err toolong <n> | err nokeys | err scan) skipped=<n,n,…|->
+
+  A mask whose length does not fit the number of lines the model's scanner
+  delivers is answered `bad-mask <lines>` (the harness takes the lines from the
+  real bufio.Scanner, so this compares the scanner model too).
 -/
 import AgeModel.Wire
+import AgeModel.KeyFile
 namespace AgeModel
 namespace Exec
 namespace KeyFile
+open AgeModel.KeyFile Wire
+
+def maxTok : Nat := 65536
+def limit : Nat := 2 ^ 24
+def lineLimit : Nat := 8192
+
+/-- verdict table: line content ↦ digits of its mask entry (first occurrence wins;
+    the real parsers are functions of the content) -/
+def lookup (tab : List (Bytes × List Nat)) (l : Bytes) : List Nat :=
+  match tab.find? (fun e => e.1 == l) with
+  | some e => e.2
+  | none => []
+
+def digits (s : String) : Option (List Nat) :=
+  if s = "-" then some [] else
+  s.toList.mapM fun c => if '0' ≤ c ∧ c ≤ '9' then some (c.toNat - 48) else none
+
+def chunks (k : Nat) : Nat → List Nat → List (List Nat)
+  | 0, _ => []
+  | fuel + 1, ds => if ds.isEmpty then [] else ds.take k :: chunks k fuel (ds.drop k)
+
+def table (lines : List Bytes) (ds : List Nat) (k : Nat) : Option (List (Bytes × List Nat)) :=
+  if ds.length = k * lines.length then some (lines.zip (chunks k ds.length ds)) else none
+
+def errStr : KeyFileErr → String
+  | .atLine n => s!"err line {n}"
+  | .noKeys => "err nokeys"
+  | .scanErr => "err scan"
+  | .lineTooLong n => s!"err toolong {n}"
+
+def joinNL : List Bytes → Bytes
+  | [] => []
+  | [l] => l
+  | l :: ls => l ++ [10] ++ joinNL ls
+
+def natList (ns : List Nat) : String :=
+  if ns.isEmpty then "-" else ",".intercalate (ns.map toString)
+
+def bit (ds : List Nat) (i : Nat) : Bool := ds[i]? = some 1
+
+def lib (which : Nat) (args : List String) : String :=
+  match args with
+  | [file, mask] =>
+    match unhex file, digits mask with
+    | some b, some ds =>
+      let lines := linesOf maxTok limit b
+      match table lines ds 1 with
+      | none => s!"bad-mask {lines.length}"
+      | some tab =>
+        let p : Bytes → Option Bytes := fun l => if bit (lookup tab l) 0 then some l else none
+        let r := if which = 0 then parseIdentities p maxTok limit b else parseRecipients p maxTok limit b
+        match r with
+        | .ok ks => s!"ok {ks.length} {sum (joinNL ks)}"
+        | .error e => errStr e
+    | _, _ => "bad-args"
+  | _ => "bad-arity"
+
+def cliIds (args : List String) : String :=
+  match args with
+  | [file, mask] =>
+    match unhex file, digits mask with
+    | some b, some ds =>
+      let lines := linesOf maxTok limit b
+      match table lines ds 1 with
+      | none => s!"bad-mask {lines.length}"
+      | some tab =>
+        let pp : Bytes → Option Bytes := fun l =>
+          match lookup tab l with | [d] => if d % 2 = 1 then some l else none | _ => none
+        let px : Bytes → Option Bytes := fun l =>
+          match lookup tab l with | [d] => if d / 2 = 1 then some l else none | _ => none
+        match cliParseIdentities pp px maxTok limit b with
+        | .ok ks => s!"ok {ks.length}"
+        | .error e => errStr e
+    | _, _ => "bad-args"
+  | _ => "bad-arity"
+
+def cliRcp (args : List String) : String :=
+  match args with
+  | [file, mask] =>
+    match unhex file, digits mask with
+    | some b, some ds =>
+      let lines := linesOf maxTok limit b
+      match table lines ds 5 with
+      | none => s!"bad-mask {lines.length}"
+      | some tab =>
+        let v : Nat → Bytes → Option Bytes := fun i l => if bit (lookup tab l) i then some l else none
+        let sniff : Bytes → Option Bytes := fun l =>
+          match (lookup tab l)[3]? with
+          | some 1 => some sshRsa
+          | some 2 => some sshEd25519
+          | some 3 => some (str "other")
+          | _ => none
+        let valid : Bytes → Bool := fun l => bit (lookup tab l) 4
+        let o := cliParseRecipientsFile (cliRecipientParse (v 0) (v 1) (v 2)) sniff valid lineLimit maxTok limit b
+        let r := match o.res with
+          | .ok ks => s!"ok {ks.length}"
+          | .error e => errStr e
+        s!"{r} skipped={natList o.skipped}"
+    | _, _ => "bad-args"
+  | _ => "bad-arity"
 
 def handle (op : String) (args : List String) : Option String :=
-  match op, args with
-  | _, _ => none
+  match op with
+  | "kfids" => some (lib 0 args)
+  | "kfrcp" => some (lib 1 args)
+  | "kfcliids" => some (cliIds args)
+  | "kfclircp" => some (cliRcp args)
+  | _ => none
 
 end KeyFile
 end Exec
